@@ -70,6 +70,7 @@ class World:
 
 
 TIMER_EXC = []
+fw.TOLERATE_ESCAPES = True       # this driver records them itself (TIMER_EXC): the start() result is what C14 speaks about
 _raw_settle = fw.settle
 _raw_advance = fw.advance
 
